@@ -3,6 +3,8 @@ package main
 import (
 	"context"
 	"fmt"
+	"github.com/synnaxlabs/alamos"
+	"github.com/synnaxlabs/freighter"
 	xkv "github.com/synnaxlabs/x/kv"
 	"sync"
 	"time"
@@ -32,6 +34,10 @@ func layerLeave(h *harness.H) {
 		h.Eval()
 		if msg := leaveCase(h, c); msg != "" {
 			h.Inconclusive("leave:" + msg)
+		}
+		h.Eval()
+		if msg := gracefulCase(h, c); msg != "" {
+			h.Inconclusive("graceful:" + msg)
 		}
 	}
 }
@@ -191,4 +197,167 @@ func (g *guardKV) end() {
 		g.dead = true
 		_ = g.DB.Close()
 	}
+}
+
+// gracefulCase: members with THROTTLED persistence (the default: membership changes that
+// arrive within one flush interval of the previous flush are written by the next flush, at
+// the latest by the final flush of cluster.Close) are closed gracefully and reopened; a
+// later pledge must not be given the key of a member they had admitted. A bootstraps, B
+// joins, B is then cut off from gossip (it keeps the view {A,B}), C joins through A, and
+// as soon as A has C in its view A and B are closed and reopened from their stores; D
+// pledges through A. A correct A comes back knowing C and proposes a fresh key.
+func gracefulCase(h *harness.H, c int) string {
+	ctx, cancel := context.WithTimeout(context.Background(), 40*time.Second)
+	defer cancel()
+	gnet := fmock.NewNetwork[gmsg, gmsg]()
+	pnet := fmock.NewNetwork[preq, preq]()
+	var blockMu sync.Mutex
+	blocked := map[address.Address]bool{}
+	type member struct {
+		cfg verifx.ClusterConfig
+		kv  *guardKV
+		cl  *verifx.Cluster
+	}
+	newMember := func(persist bool, peers ...address.Address) *member {
+		gs := gnet.UnaryServer("")
+		ps := pnet.UnaryServer(gs.Address)
+		gate := &cutClient{inner: gnet.UnaryClient(), self: gs.Address, mu: &blockMu, blocked: blocked}
+		m := &member{cfg: verifx.ClusterConfig{
+			HostAddress: gs.Address,
+			Gossip:      verifx.GossipConfig{TransportClient: gate, TransportServer: gs, Interval: 5 * time.Millisecond},
+			Pledge: verifx.PledgeConfig{
+				Peers: peers, TransportClient: pnet.UnaryClient(), TransportServer: ps,
+				RequestTimeout: 300 * time.Millisecond, RetryInterval: 2 * time.Millisecond, RetryScale: 1.2,
+			},
+		}}
+		if persist {
+			m.kv = &guardKV{DB: memkv.New()}
+			m.cfg.Storage, m.cfg.StorageKey = m.kv, []byte(fmt.Sprintf("c11-graceful-%s", gs.Address))
+			// StorageFlushInterval left at its default: throttled (1 s)
+		}
+		return m
+	}
+	var all []*member
+	defer func() {
+		for _, m := range all {
+			if m.cl != nil {
+				_ = m.cl.Close()
+			}
+			if m.kv != nil {
+				m.kv.end()
+			}
+		}
+	}()
+	wait := func(cond func() bool) bool {
+		deadline := time.Now().Add(10 * time.Second) // watchdog: inconclusive
+		for !cond() {
+			if time.Now().After(deadline) {
+				return false
+			}
+			time.Sleep(200 * time.Microsecond)
+		}
+		return true
+	}
+	keys := map[verifx.NodeKey]string{}
+	var log []string
+	admit := func(step string, m *member) bool {
+		k := m.cl.HostKey()
+		log = append(log, fmt.Sprintf("%s: %s has key %d", step, m.cfg.HostAddress, k))
+		if p, dup := keys[k]; dup {
+			h.Violation("leave", c, "c11:graceful-restart:key-of-a-live-member-handed-out-again",
+				fmt.Sprintf("node key %d was handed out twice: %s and %s; in between, the members that had admitted the first holder were closed gracefully and reopened from their stores", k, p, step),
+				map[string]any{"log": log})
+			return false
+		}
+		keys[k] = step
+		return true
+	}
+	var err error
+	a := newMember(true)
+	all = append(all, a)
+	if a.cl, err = verifx.OpenCluster(ctx, a.cfg); err != nil {
+		return "bootstrap"
+	}
+	keys[a.cl.HostKey()] = "bootstrap"
+	addrA := a.cl.Host().Address
+	b := newMember(true, addrA)
+	all = append(all, b)
+	if b.cl, err = verifx.OpenCluster(ctx, b.cfg); err != nil {
+		return "join"
+	}
+	if !admit("join of B through A", b) {
+		return ""
+	}
+	kb := b.cl.HostKey()
+	if !wait(func() bool { _, ok := a.cl.Nodes()[kb]; return ok }) {
+		return "a-never-learned-b"
+	}
+	// B hears and says nothing from now on
+	blockMu.Lock()
+	blocked[b.cfg.HostAddress] = true
+	blockMu.Unlock()
+	cm := newMember(false, addrA)
+	all = append(all, cm)
+	if cm.cl, err = verifx.OpenCluster(ctx, cm.cfg); err != nil {
+		return "join"
+	}
+	if !admit("join of C through A", cm) {
+		return ""
+	}
+	kc := cm.cl.HostKey()
+	if !wait(func() bool { _, ok := a.cl.Nodes()[kc]; return ok }) {
+		return "a-never-learned-c"
+	}
+	if _, bKnows := b.cl.Nodes()[kc]; bKnows {
+		return "b-learned-c-before-the-cut"
+	}
+	known := len(a.cl.Nodes())
+	for _, m := range []*member{a, b} {
+		if err := m.cl.Close(); err != nil {
+			return "close"
+		}
+		m.cl = nil
+	}
+	for _, m := range []*member{a, b} {
+		cfg := m.cfg
+		if m == b {
+			cfg.Pledge.Peers = []address.Address{addrA}
+		}
+		if m.cl, err = verifx.OpenCluster(ctx, cfg); err != nil {
+			return "reopen"
+		}
+		log = append(log, fmt.Sprintf("%s closed gracefully and reopened with key %d, knowing %d members", m.cfg.HostAddress, m.cl.HostKey(), len(m.cl.Nodes())))
+	}
+	h.Count("graceful_members_known_at_close", known)
+	d := newMember(false, addrA)
+	all = append(all, d)
+	if d.cl, err = verifx.OpenCluster(ctx, d.cfg); err != nil {
+		return "late-join"
+	}
+	if !admit("join of D through the reopened A", d) {
+		return ""
+	}
+	h.Count("graceful_restarts", 2)
+	h.Distinct(fmt.Sprintf("graceful|%d", known))
+	return ""
+}
+
+// cutClient drops every gossip message to or from a cut-off member.
+type cutClient struct {
+	inner   *fmock.UnaryClient[gmsg, gmsg]
+	self    address.Address
+	mu      *sync.Mutex
+	blocked map[address.Address]bool
+}
+
+func (c *cutClient) Report() alamos.Report         { return c.inner.Report() }
+func (c *cutClient) Use(m ...freighter.Middleware) { c.inner.Use(m...) }
+func (c *cutClient) Send(ctx context.Context, t address.Address, m gmsg) (gmsg, error) {
+	c.mu.Lock()
+	cut := c.blocked[t] || c.blocked[c.self]
+	c.mu.Unlock()
+	if cut {
+		return gmsg{}, errInjected
+	}
+	return c.inner.Send(ctx, t, m)
 }
